@@ -105,6 +105,10 @@ def install(seed, max_steps=3000000, max_virtual=3000.0):
     _set(mpire.signal, 'signal_', sim.sim_signal)
     _set(mpire.signal, 'getsignal', sim.sim_getsignal)
     _set(mpire.signal, 'SIG_IGN', sim.SIG_IGN)
+    if hasattr(mpire.signal, 'SIG_DFL'):
+        _set(mpire.signal, 'SIG_DFL', sim.SIG_DFL)
+    if hasattr(mpire.signal, 'os'):
+        _set(mpire.signal, 'os', sim.os_shim)
     _set(mpire.signal, 'SIGINT', sim.SIGINT)
     _set(mpire.progress_bar, 'threading', sim.threading_shim)
     _set(mpire.progress_bar, 'Thread', sim.Thread)
